@@ -123,9 +123,17 @@ class ObsSession:
                 # a history: the same observer object has already observed, for every agent, an earlier
                 # state of the same world (an observation is a function of the current state alone)
                 gridw.set_state_in_order(w, earlier, None)
+                # (round 6) in half of the histories nobody was blocking yet when the observer first looked: the flags
+                # are switched on through the agents' public `blocking` setter afterwards, the number of agents is
+                # the same - what blocks is read from the agents as they are NOW
+                flags = [(ag, ag.blocking) for ag in w.agent_list] if len(repr(earlier)) % 2 == 0 else []
+                for ag, _ in flags:
+                    ag.blocking = False
                 for ag in w.agent_list:
                     with oracle.scripted(oracle.Tape([0] * 400)):
                         guarded(lambda: ob.get_obs(ag))
+                for ag, b in flags:
+                    ag.blocking = b
             gridw.set_state_in_order(w, state, self.wdesc.get("place_order"))
             for i, ag in enumerate(w.agent_list):
                 if ob._supported_agent(ag):
